@@ -111,8 +111,13 @@ def gen_case(rng, tier, flavour=None):
         ks = rand_keys(pool, 0)
         if rng.random() < 0.6:
             ks = list(allkeys)
-        ops.append({"op": "open_streamer", "s": ns, "keys": ks})
-        strs[ns] = {"open": True, "paused": False}
+        o = {"op": "open_streamer", "s": ns, "keys": ks}
+        if strs and rng.random() < 0.35:
+            # the caller re-uses one key slice: open from the very slice streamer j was opened from
+            j = rng.choice(sorted(strs))
+            o["keys"], o["share"] = list(strs[j]["keys"]), j
+        ops.append(o)
+        strs[ns] = {"open": True, "paused": False, "keys": list(o["keys"])}
 
     open_writer()
     if rng.random() < 0.6:
@@ -228,7 +233,10 @@ def gen_stall_case(rng):
     sids = [1, 2, 3]
     for s in sids:
         ks = list(VIRT) if rng.random() < 0.7 else rand_subset(rng, VIRT, 1)
-        ops.append({"op": "open_streamer", "s": s, "keys": ks})
+        o = {"op": "open_streamer", "s": s, "keys": ks}
+        if s > 1 and rng.random() < 0.3:
+            o["keys"], o["share"] = list(ops[-1]["keys"]), s - 1
+        ops.append(o)
     ops.append({"op": "sync"})
 
     def some_write():
@@ -479,6 +487,8 @@ def histogram(case, r):
         if o["op"] == "write":
             ks.append("write:" + ("err" if x.get("e") not in ("", "skip") else "skip" if x.get("e") else
                                   ("authorized" if x.get("a") else "partly-unauthorized")))
+        if o["op"] == "open_streamer" and o.get("share"):
+            ks.append("streamer_opened_from_shared_key_slice")
         if o["op"] == "open_writer":
             ks.append("mode=" + (o.get("mode") or "ps"))
             if x.get("e"):
@@ -509,6 +519,17 @@ def neighbours(case, rng):
     return out[:120]
 
 
+def fixup(case):
+    seen = {}
+    for o in case.get("ops", []):
+        if o.get("op") == "open_streamer":
+            j = o.get("share")
+            if j and (j not in seen or seen[j] != list(o.get("keys") or [])):
+                o.pop("share", None)
+            seen.setdefault(o["s"], list(o.get("keys") or []))
+    return case
+
+
 def model_dump(case, r):
     return coq_print(PID, COQ_IMPORTS, "Eval vm_compute in model_dump (%s)." % to_coq(case, r))[-8000:]
 
@@ -516,7 +537,8 @@ def model_dump(case, r):
 RULE = ("seeded sequential driver scripts of 10-34 operations (real relay / streamer / writer goroutines run concurrently "
         "with the driver) over 3 virtual channels (+ an index/data pair in 40%): 1-4 writers (persist+stream, stream-only, "
         "persist-only; single or per-channel authorities from {255,200,100,50,0}, so several writers contend per channel), "
-        "0-3 streamers with arbitrary key sets (also empty, also unknown keys); operations: open/close writer, write (subset of "
+        "0-3 streamers with arbitrary key sets (also empty, also unknown keys; 35% of the later ones opened from the very key "
+        "slice an earlier streamer was opened from); operations: open/close writer, write (subset of "
         "held keys, index groups whole; 30% of scripts carry malformed steps: never-opened key, duplicate key, partial index "
         "group, wrong data type, unknown channel, wrong authority count), set-authority, open / re-subscribe / close streamer, "
         "pause / resume consumer (15% of scripts, slow-consumer timeout 1.5 s there, 5 s otherwise), barrier, background writer "
@@ -530,7 +552,8 @@ RULE = ("seeded sequential driver scripts of 10-34 operations (real relay / stre
         "unauthorized, and a re-subscribe / streamer close / pause / DB close took effect; distinct by hash.")
 TRUSTED = ["hook cesium/export_verif_c20.go (WithVerifStreamingConfig: relay capacity and slow-consumer timeout, otherwise unexported)",
            "harness hooks/cesium/verifh/c20 (built with -race): real cesium.DB on an in-memory FS, real writers / streamers / relay; "
-           "a unique (writer, sequence) tag in every sample; an always-ready consumer goroutine per streamer; barriers by probe "
+           "a unique (writer, sequence) tag in every sample; an always-ready consumer goroutine per streamer; key slices shared between "
+           "streamers and checked unmodified once all their streamers exited; barriers by probe "
            "frames on two dedicated virtual channels (probe key alternates with every re-subscribe so a received probe shows the "
            "active subscription generation) + a sentinel streamer; a 20 s watchdog on every call",
            "the monitor computes 'authorized' from the script with the control rule of C05 (highest authority, earliest open; "
